@@ -71,6 +71,14 @@ Definition step (w:world) (o:op) : world * out :=
   | OFsRm f => fs_op w (fun fs => if fs_mem fs f then (fs_del fs f, RUnit) else (fs, RErr ENoFile))
   | OFsWrite f b => fs_op w (fun fs => (fs_put fs f b, RUnit))
   | OFsAppend f b => fs_op w (fun fs => match append f b fs with (fs', Ok _) => (fs', RUnit) | (fs', _) => (fs', RErr ENoFile) end)
+  | OFsCut f k => fs_op w (fun fs => match fs_get fs f with
+                                     | Some c => (fs_put fs f (take (len c - k) c), RUnit)
+                                     | None => (fs, RErr ENoFile)
+                                     end)
+  | OFsPatch f k b => fs_op w (fun fs => match fs_get fs f with
+                                         | Some c => (fs_put fs f (patch_from_end c k b), RUnit)
+                                         | None => (fs, RErr ENoFile)
+                                         end)
   end.
 
 (* new / open while a handle is open first drops it *)
